@@ -64,6 +64,14 @@ func main() {
 		run.OpLine(map[string]string{"op": "err", "e": e.name})
 		run.OutLine(code)
 		run.Count("case:error_mapping")
+		// theorem error_table restated on the implementation (written down here, not taken from the model)
+		want := map[string]string{"invalidSession": "InvalidArgument", "payloadTooBig": "InvalidArgument", "timeoutTooSmall": "InvalidArgument",
+			"systemBusy": "Unavailable", "closed": "Unavailable", "shardClosed": "Unavailable", "shardNotFound": "NotFound",
+			"ctxCanceled": "Canceled", "canceled": "Canceled", "ctxDeadline": "DeadlineExceeded", "timeout": "DeadlineExceeded", "other": "Unknown"}[e.name]
+		if code != want {
+			run.Violate(hx.Violation{Property: "C19", Clause: "error_table", Signature: "error-code:" + e.name,
+				What: fmt.Sprintf("error %q (%v) is mapped to status %s, the table says %s", e.name, e.err, code, want), Ops: []string{"GRPCError(" + e.name + ")"}})
+		}
 	}
 	if drummer.GRPCError(nil) != nil {
 		run.Violate(hx.Violation{Property: "C19", Clause: "error_table_total", Signature: "nil-error-mapped", What: "a nil error is mapped to a status"})
